@@ -117,7 +117,11 @@ def correspondence(ctx):
         "max float, integers beyond int64 as float64 or uint64; direct, in a list, in a map, nested; in by-products or environment) "
         "Metablock.Sign must return an error and append no signature, Envelope.SetPayload must refuse, Metablock.VerifySignature must refuse "
         "signatures made over the empty string / json.Marshal bytes / another link; for the canonicalisable neighbour the signature must verify "
-        "with Go's crypto directly over the reference canonical bytes and not over the empty string. value level: random generic values "
+        "with Go's crypto directly over the reference canonical bytes and not over the empty string; histories on ONE signed Metablock object "
+        "(layouts whose rule tokens carry leading/trailing blanks, tabs, NBSP, NEL and keywords in upper/lower/mixed case, well-formed and "
+        "malformed rules; links): after each of ValidateMetablock, validateLayout/validateLink (hook), UnpackRule on every rule, VerifyArtifacts, "
+        "SubstituteParameters, VerifySignature (in shuffled order) GetSignableRepresentation must return the bytes it returned before, equal to the "
+        "reference canonical form of an independently generated copy, and the signature must still verify. value level: random generic values "
         "through cjson.EncodeCanonical and through SetPayload of a link carrying them, and JSON texts (half of them damaged) through "
         "json.Valid+Decoder(UseNumber), against the extracted model. non-trivial = every case (no case is a constant input); distinct = distinct input JSON / input line")
     _value_level(ctx, binp, 20000 if ctx.tier == 'quick' else 600000, corr)
